@@ -252,22 +252,20 @@ theorem mem_endpointsAll (c : Circuit) (hnd : c.nodeNames.Nodup) (x : Name) :
     · exact Or.inr ⟨_, h, by simp⟩
 
 theorem startpoints_ok (c : Circuit) (htyped : ∀ p ∈ c.nodes, p.2.ty.isSome = true)
-    (ns : List Name) (hne : ns ≠ []) (h : ∀ n ∈ ns, c.has n = true) :
+    (ns : List Name) (h : ∀ n ∈ ns, c.has n = true) :
     startpoints c ns =
       .ok ((dedup (ns ++ unionAll (ns.map (ancestors c)))).filter c.startpointsAll.contains) := by
   unfold startpoints
   rw [any_ty_none_false c htyped, transitiveFanin_ok c ns h]
-  have : ns.isEmpty = false := by cases ns <;> simp at hne ⊢
-  simp [this]
+  simp
 
 theorem endpoints_ok (c : Circuit) (htyped : ∀ p ∈ c.nodes, p.2.ty.isSome = true)
-    (ns : List Name) (hne : ns ≠ []) (h : ∀ n ∈ ns, c.has n = true) :
+    (ns : List Name) (h : ∀ n ∈ ns, c.has n = true) :
     endpoints c ns =
       .ok ((dedup (ns ++ unionAll (ns.map (descendants c)))).filter c.endpointsAll.contains) := by
   unfold endpoints
   rw [any_ty_none_false c htyped, transitiveFanout_ok c ns h]
-  have : ns.isEmpty = false := by cases ns <;> simp at hne ⊢
-  simp [this]
+  simp
 
 end Q
 end CG
